@@ -171,7 +171,9 @@ Listing ==
        THEN Reject("C12", "KF: last iteration not saved after restoring an older step into the same directory")
      ELSE IF Ev.quiescent /\ d = dir /\ ~T.freq0 /\ Len(Ev.tmp) > 0 /\ ~T.hadcrash
        THEN Reject("C12", "listing: temporary directory left behind after pending writes finished")
-     ELSE IF ~T.freq0 /\ d = 1 /\ Ev.cfg # T.fullconfig
+     \* (a process killed while its solver was being constructed - before the first save - may leave the directory
+     \* without the file: the file is demanded once pending writes have finished or a checkpoint exists)
+     ELSE IF ~T.freq0 /\ d = 1 /\ ((Ev.cfg /\ ~T.fullconfig) \/ (~Ev.cfg /\ T.fullconfig /\ (Ev.quiescent \/ fin # {})))
        THEN Reject("C12", "configuration file present exactly when solver and problem are reconstructible")
      ELSE IF durable > 0 /\ d = dir /\ (fin = {} \/ SetMax(fin) < durable)
        THEN Reject("C11", "durability: the latest committed step is older than a save that had completed")
